@@ -19,6 +19,7 @@ checks = {
  'C11': ('SX', 'the same schedule exploration under ThreadSanitizer: vector-clock race detection on every explored schedule (hand-off invisible to TSan)', 'zero TSan reports on every explored schedule of the pool drivers and the block constructor', '4.3'),
  'C12': ('BX', BXT, 'observation vectors equal across all parameter vectors of a kind (ID-free for hash kinds), across order-preserving kinds, bucket size <2 behaves as 2 with a warning', '5'),
  'C13': ('BX', BXT, 'table scan and every iterator drained: count, order, strlen, termination, no duplicate IDs', '5'),
+ 'C14': ('HX', 'explicit-state search over call histories: state = heap image of the object, BFS over an alphabet of all query operations, failed look-ups, unsupported operations, save and all interleavings of two open iterators; every step replayed on the real object in a forked child', 'answers equal the fresh-copy answers in every reachable state; if every operation is a self-loop on the image the invariant holds for histories of any length; caller pattern compared byte-wise after every call', '4.1'),
  'C15': ('BX', BXT, 'numElements and maxLength against the model, fresh and reloaded', '5'),
  'C16': ('BX', BXT + '; tag sweep of the generic loader', 'unsupported operations return null/0 and leave the object usable; every kind loader rejects every other kind image; generic loader rejects unknown tags', '5'),
  'C17': ('KX', 'exhaustive enumeration of component inputs (VByte: every uint32 in the thorough tier; LogSequence: widths 1..64 x positions x overwrite pairs; DAC: all small sequence lists) against plain-array definitions', 'round trip of every value / field / sequence incl. save-load', '4.2'),
@@ -35,6 +36,7 @@ m = {
  'engines': [
   {'name': 'BX', 'path': 'src/bx.cpp', 'serves_properties': ['C01','C02','C03','C04','C05','C06','C07','C08','C09','C12','C13','C15','C16','C17','C18','C20'], 'kind_free_text': 'bounded-exhaustive dictionary explorer against a reference model'},
   {'name': 'SX', 'path': 'src/sx.cpp + src/sx/sched.c', 'serves_properties': ['C09','C10','C11'], 'kind_free_text': 'controlled scheduler over interposed pthreads, preemption-bounded stateless search'},
+  {'name': 'HX', 'path': 'src/hx.cpp', 'serves_properties': ['C14'], 'kind_free_text': 'explicit-state search over call histories with heap-image states'},
   {'name': 'KX', 'path': 'src/kx.cpp', 'serves_properties': ['C17','C18','C19','C20'], 'kind_free_text': 'component explorers'},
  ],
  'checks': [], 'not_applicable': [],
